@@ -111,7 +111,7 @@ class PeerBase:
             if f.get('at') != label:
                 continue
             fc = f.get('conn', '*')
-            if not (fc == '*' or fc == c.idx or (fc == 'probe' and c.idx >= 1) or (isinstance(fc, list) and c.idx in fc)):
+            if not (fc == '*' or fc == c.idx or (fc == 'probe' and c.idx >= 1) or (isinstance(fc, list) and c.idx in fc) or (isinstance(fc, dict) and c.idx >= fc.get('ge', 0) and c.idx <= fc.get('le', 1 << 30))):
                 continue
             if 'nth' in f and f['nth'] != nth:
                 continue
